@@ -67,7 +67,10 @@ class Case:
         elif kind == "sync":
             out.append("new %d sync %d" % (k, r.choice([0, 1, 2, 5])))
         elif kind == "gen":
-            if self.fds and r.random() < 0.25:
+            released = [self.gen_fd[j] for j in sorted(self.kept) if j in self.removed and j in self.gen_fd]
+            if released and r.random() < 0.5:
+                f = r.choice(released)          # the fd of a removed source whose dispatcher is still held: re-use after release
+            elif self.fds and r.random() < 0.25:
                 f = r.choice(self.fds)          # duplicate fd: EEXIST on insertion if still registered
             else:
                 f = self.next_fd
@@ -186,7 +189,8 @@ class Case:
                 return "setinterest %d %s %s" % (k, r.choice(["r", "w", "rw", "-"]),
                                                  r.choice(["level", "edge", "oneshot"])) + (follow if r.random() < 0.9 else "")
         if x < 0.68 and self.kept:
-            k = r.choice(sorted(self.kept))
+            gone = [j for j in sorted(self.kept) if j in self.removed]
+            k = r.choice(gone) if gone and r.random() < 0.6 else r.choice(sorted(self.kept))
             return "dropdisp %d" % k
         if x < 0.8:
             customs = [k for k, kd in self.kind.items() if kd in ("custom", "customlife")]
